@@ -473,9 +473,30 @@ def compiled(ctx, fvs, progs, imgs, descs, plan):
 def answers_guard(traces, imgs):
     """vacuity: every kind of lookup was answered with a descriptor at least once, the ones that can cross files also
     with a descriptor of another file, and nil answers for not-yet-registered includes were seen"""
-    hit, cross, early, far = {}, {}, 0, 0
+    hit, cross, early = {}, {}, 0
+    # (from the universe, not from the answers) a service inherits over two include hops from a file its own file does not include
+    far = 0
+    for img in imgs:
+        for fi, F in enumerate(img):
+            near = {fi + 1} | {i["file"] for i in F["incs"]}
+            for sv in F["services"]:
+                g, b = fi, sv["base"]
+                for _ in range(6):
+                    if not b["w"]:
+                        break
+                    if b["pre"]:
+                        tg = [i["file"] - 1 for i in img[g]["incs"] if i["alias"] == b["pre"]
+                              and any(x["name"] == b["name"] for x in img[i["file"] - 1]["services"])]
+                        if not tg:
+                            break
+                        g = tg[0]
+                    nxt = [x for x in img[g]["services"] if x["name"] == b["name"]]
+                    if not nxt:
+                        break
+                    if g + 1 not in near and nxt[0]["methods"]:
+                        far += 1
+                    b = nxt[0]["base"]
     for t in traces:
-        img = imgs[t["p"] - 1]
         nreg = 0
         for e in t["events"]:
             if e["op"] == "reg":
@@ -486,9 +507,6 @@ def answers_guard(traces, imgs):
                     hit[k] = hit.get(k, 0) + 1
                     if any(x[0] > 0 and x[0] != q["f"] for x in q["l"]):
                         cross[k] = cross.get(k, 0) + 1
-                    near = {q["f"]} | {i["file"] for i in img[q["f"] - 1]["incs"]}
-                    if k == "allmethods" and any(x[0] > 0 and x[0] not in near for x in q["l"]):
-                        far += 1      # inherited from a file the service's own file does not include
                 if q["rf"] > 0 or q["rj"] > 0 or (k == "togo" and q["ri"] > 0):
                     hit[k] = hit.get(k, 0) + 1
                     if q["rf"] > 0 and q["rf"] != q["f"]:
